@@ -976,6 +976,11 @@ def expand(template_path, repo='/repo'):
             if ret:
                 sig = _name_return(sig, ret)
             body, dropped = rc.drop_statements(fn['body'])
+            # rule 26: a closure parameter `_` is given a name (`|_|` -> `|_verif_unused|`); Verus rejects wildcard closure parameters, the meaning is the same
+            n_wild = len(re.findall(r'\|\s*_\s*\|', body))
+            if n_wild:
+                body = re.sub(r'\|\s*_\s*\|', '|_verif_unused|', body)
+                side.setdefault('normalized_statements', []).append({'fn': name, 'from': '|_| (x%d)' % n_wild, 'to': '|_verif_unused|'})
             # rule 24: file-level constants the body mentions are copied verbatim (once), unless the template defines them itself
             for cn in sorted(set(re.findall(r'(?<![A-Za-z0-9_:.])[A-Z][A-Z0-9_]{2,}(?![A-Za-z0-9_(!])', body))):
                 if cn in auto_consts or re.search(r'\bconst\s+' + cn + r'\b', '\n'.join(tpl)):
